@@ -181,14 +181,14 @@ PROPS = {
         'rule': 'cells (N, degree, k, closed): single generated cells incl. the invalid-argument classes, and sweep cases that enumerate the whole box 3<=N<=16, 2<=d<=N, 1<=k<=4, open/closed (952 cells) on a generated trajectory (consecutive relative rotation < pi); non-trivial: >= 2 windows and degree >= 3',
         'assumptions': ASSUME_ORACLE + ['AddressSanitizer build over an exact-size heap trajectory: reading anything but its elements is reported; ASAN hard_rss_limit_mb=4000 and the per-shard timeout bound non-termination (a process killed by either is reported as a violation of C17, whose statement includes termination)'],
         'stages': [
-            {'src': 'C17.cpp', 'configs': ['SE2d', 'SO3d', 'SE3d', 'R3d'], 'tag': '-asan',
+            {'src': 'C17.cpp', 'configs': ['SE2d', 'SO3d', 'SE3d', 'R3d', 'SE2f', 'SO3f'], 'tag': '-asan',
              'defs': ['-fsanitize=address,undefined', '-fno-sanitize-recover=undefined', '-fno-omit-frame-pointer'],
              'env': {'ASAN_OPTIONS': 'hard_rss_limit_mb=4000:detect_leaks=0:allocator_may_return_null=1'},
-             'cases': {'quick': 160, 'thorough': 6000}, 'shards': {'quick': 2, 'thorough': 4}, 'timeout': {'quick': 900, 'thorough': 7200}},
+             'cases': {'quick': 160, 'thorough': 6000}, 'shards': {'quick': 2, 'thorough': 4}, 'timeout': {'quick': 900, 'thorough': 7200}, 'case_scale': {'SE3d': 0.5}},
             {'src': 'C17.cpp', 'configs': ['SE2d', 'SE3d'], 'tag': '-asan-ndebug',
              'defs': ['-DNDEBUG', '-fsanitize=address,undefined', '-fno-sanitize-recover=undefined', '-fno-omit-frame-pointer'],
              'env': {'ASAN_OPTIONS': 'hard_rss_limit_mb=4000:detect_leaks=0:allocator_may_return_null=1'},
-             'cases': {'quick': 120, 'thorough': 3000}, 'shards': {'quick': 1, 'thorough': 2}, 'timeout': {'quick': 900, 'thorough': 7200}},
+             'cases': {'quick': 120, 'thorough': 3000}, 'shards': {'quick': 2, 'thorough': 2}, 'timeout': {'quick': 900, 'thorough': 7200}, 'case_scale': {'SE3d': 0.5}},
             {'kind': 'fuzz', 'tiers': ['thorough'], 'src': 'C17.cpp', 'configs': ['SE2d', 'SO3d', 'SE3d', 'R3d'], 'rc_tag': '-asanrc',
              'seconds': {'quick': 20, 'thorough': 600}, 'jobs': 4, 'max_len': 4096},
         ],
